@@ -53,6 +53,17 @@ let () =
         let progs = Array.init tn (fun i -> if rest.(i) = "-" then "" else rest.(i)) in
         let sched = List.map int_of_string (split_on ',' rest.(tn)) in
         run_cv id tn progs sched
+      | "IN" :: "TPRED" :: id :: cls :: scr :: ws :: _ ->
+        (* round h12a, Model/TimedPredLoop.v: the loop of the timed predicate waits with the on-timeout expression of the header
+           (cls: cv / cva / cvs, regenerated into Gen/GenTimedPred.v); scr = scripted predicate values (i-th evaluation), ws = outcomes
+           of the inner timed waits (t = time-out); printed: the trace of evaluations (P0/P1) and inner waits (W), the returned value *)
+        let ot = match cls with "cv" -> cv_on_timeout | "cva" -> cva_on_timeout | _ -> cvs_on_timeout in
+        let bl s c = List.map (fun x -> x = c) (chars s) in
+        (match tp_call ot (nat_of_int 64) (script (bl scr '1') false) (script (bl ws 't') true) with
+         | None -> Printf.printf "OUT TPRED %s trace=? ret=? (out of fuel)\n" id
+         | Some (r, tr) ->
+           Printf.printf "OUT TPRED %s trace=%s ret=%d\n" id
+             (String.concat "" (List.rev_map (function TpPred v -> if v then "P1" else "P0" | TpWait _ -> "W") tr)) (if r then 1 else 0))
       | ["IN"; "ABORT"; id; n; os] ->
         (* round w11c, Model/CondVarAbort.v: n waiters (threads 1..n; OS threads iff os = 1) perform one detail wait each and run
            until they block; then thread 0 runs abort_all to its end; then everybody runs on.  Printed: abort() calls, waits ended
